@@ -530,8 +530,25 @@ static bool has_key(const ChildResult &cr, const std::string &key)
 	return false;
 }
 
+// A process that died (sanitizer report, signal, watchdog) of something other than the simulator itself. After memory
+// has been corrupted the place where a process gives way is not a function of the plan (a double free of a key object
+// showed up as "attempting double-free" in one child and as an endless loop in the next): for findings of this kind any
+// death reproduces the finding.
+static bool has_abort(const ChildResult &cr)
+{
+	for (auto &v : cr.viol)
+		if (v.monitor == "abort" && v.cause.compare(0, 12, "harness-bug:") != 0)
+			return true;
+	return false;
+}
+static bool has_finding(const ChildResult &cr, const std::string &key, bool any_crash)
+{
+	return any_crash ? has_abort(cr) : has_key(cr, key);
+}
+
 // ---------------------------------------------------------------- shrinking
 struct Shrinker {
+	bool any_crash = false;
 	std::string key;
 	int budget = 500;
 	double deadline = 0;
@@ -547,7 +564,7 @@ struct Shrinker {
 		if (tester)
 			return tester(p);
 		ChildResult cr = run_in_child(p, child_timeout(), prefix.empty() ? nullptr : &prefix);
-		return has_key(cr, key);
+		return has_finding(cr, key, any_crash);
 	}
 	// ddmin over the list of earlier plans, the failing plan stays last
 	void shrink_prefix(const Plan &last)
@@ -567,7 +584,7 @@ struct Shrinker {
 				cand.erase(cand.begin() + (long)start, cand.begin() + (long)end);
 				tries++;
 				ChildResult cr = run_in_child(last, child_timeout(), &cand);
-				if (has_key(cr, key)) {
+				if (has_finding(cr, key, any_crash)) {
 					prefix = cand;
 					removed = true;
 					break;
@@ -649,7 +666,7 @@ struct Shrinker {
 			tester = [this, j, &plan](const Plan &c) {
 				std::vector<Plan> pf = prefix;
 				pf[j] = c;
-				return has_key(run_in_child(plan, child_timeout(), &pf), key);
+				return has_finding(run_in_child(plan, child_timeout(), &pf), key, any_crash);
 			};
 			Plan pj = prefix[j];
 			ddmin(pj, [](Plan &p) -> std::vector<Step> & { return p.steps; });
@@ -682,6 +699,8 @@ static std::string write_replay(const Plan &plan, const Violation &v, uint64_t v
 	json_object_set_new(e, "monitor", json_string(v.monitor.c_str()));
 	json_object_set_new(e, "cause", json_string(v.cause.c_str()));
 	json_object_set_new(e, "detail", json_string(show(v.detail, 1500).c_str()));
+	if (v.detail.compare(0, 11, "[any crash]") == 0)
+		json_object_set_new(e, "any_crash", json_true()); // the replay reproduces when the process dies, wherever it does
 	json_object_set_new(o, "expect", e);
 	json_object_set_new(o, "verif_seed", json_string(strf("%llu", (unsigned long long)verif_seed).c_str()));
 	json_object_set_new(o, "run_index", json_integer((json_int_t)index));
@@ -730,6 +749,8 @@ static bool load_replay(const std::string &path, Plan &plan, Violation &expect, 
 			expect.monitor = json_string_value(v);
 		if ((v = json_object_get(e, "cause")) && json_is_string(v))
 			expect.cause = json_string_value(v);
+		if ((v = json_object_get(e, "any_crash")) && json_is_true(v))
+			expect.detail = "[any crash]";
 	}
 	json_decref(o);
 	return ok;
@@ -784,7 +805,7 @@ static int cmd_replay(const std::string &path, bool verbose)
 	for (auto &v : cr.viol)
 		printf("VIOLATION-DETAIL property=%s monitor=%s cause=%s\n  %s\n", v.property.c_str(), v.monitor.c_str(),
 		       v.cause.c_str(), show(v.detail, 1200).c_str());
-	bool hit = expect.property.empty() ? !cr.viol.empty() : has_key(cr, expect.key());
+	bool hit = expect.property.empty() ? !cr.viol.empty() : has_finding(cr, expect.key(), expect.detail == "[any crash]");
 	if (hit) {
 		printf("REPRODUCED %s\n", expect.key().c_str());
 		printf("VIOLATION property=%s replay=%s\n", plan.property.c_str(), path.c_str());
@@ -1216,6 +1237,12 @@ static int cmd_check(const std::string &property, Tier tier, uint64_t verif_seed
 		ChildResult b = run_in_child(plan);
 		Shrinker sh;
 		size_t orig_prefix = 0;
+		// a process that died: when the re-executions die too, but elsewhere, that reproduces it (see has_abort)
+		bool any_crash = f.v.monitor == "abort" && !(has_key(a, key) && has_key(b, key)) && has_abort(a) && has_abort(b);
+		if (any_crash)
+			fprintf(stderr, "jwtsim: run %llu died as %s in the worker and differently in the re-executions (memory was corrupted before): any death counts\n",
+				(unsigned long long)f.index, f.v.cause.c_str());
+		sh.any_crash = any_crash;
 		if (!has_key(a, key) && !has_key(b, key) && a.ran && b.ran && a.hash == b.hash && f.hist_first < f.index) {
 			// Alone the plan is violation-free, deterministically. The worker had executed other runs before it in
 			// the same process: re-execute growing suffixes of that history in front of the plan.
@@ -1249,7 +1276,7 @@ static int cmd_check(const std::string &property, Tier tier, uint64_t verif_seed
 					break;
 			}
 		}
-		if (!has_key(a, key) || !has_key(b, key) || (a.ran && b.ran && a.hash != b.hash)) {
+		if (!has_finding(a, key, any_crash) || !has_finding(b, key, any_crash) || (a.ran && b.ran && a.hash != b.hash)) {
 			fprintf(stderr,
 				"jwtsim: HARNESS-ERROR violation %s of run %llu did not reproduce deterministically "
 				"(a=%d b=%d hash %llx/%llx)\n",
@@ -1270,6 +1297,8 @@ static int cmd_check(const std::string &property, Tier tier, uint64_t verif_seed
 		for (auto &v : fin.viol)
 			if (v.key() == key)
 				fv = v;
+		if (any_crash)
+			fv.detail = "[any crash] " + fv.detail;
 		if (!sh.prefix.empty())
 			fv.detail += strf(" [only after %zu earlier run(s) in the same process (see \"history\" in the replay file): state kept by the library outside the objects of a run]",
 					  sh.prefix.size());
